@@ -529,7 +529,11 @@ struct Sim {
                 int p = (int)op.mod(0, npeers), t = (int)op.mod(1, ntx);
                 const TxDef& d = U.txs[t];
                 bool had = HasTx(m, t);
-                bool ret = orph->AddTx(d.tx, Nid(p));
+                // every other call hands over an equal but distinct transaction object (what a second peer's deserialised message is):
+                // nothing in the interface says announcements of one orphan share a CTransactionRef
+                const bool fresh_object = ((op.arg(1) / (int64_t)std::max(1, ntx)) ^ op.arg(0)) & 1;
+                if (fresh_object) ctx.probe("addtx_distinct_object");
+                bool ret = orph->AddTx(fresh_object ? MakeTransactionRef(*d.tx) : d.tx, Nid(p));
                 if (d.oversize) ctx.probe("oversize_rejected");
                 else if (!m.count({t, p})) {
                     s0[{t, p}] = AnnM{next_seq++, false};
